@@ -32,17 +32,22 @@ def caller_untouched(ctx, st, info):
         return
     ctx.claim("caller-x-not-modified", seq_equal(ctx, list(st.caller_x), st.caller_x_terms), info)
     ctx.claim("caller-y-not-modified", seq_equal(ctx, list(st.caller_y), st.caller_y_terms), info)
+    for label, a, t in st.other_caller_arrays:
+        ctx.claim("caller-array-not-modified", seq_equal(ctx, list(a), t), dict(info, array=label))
 
 
 def all_ops(tier):
     out = [("domain", d) for d in domain_ops(tier)]
     out += [("reshape", r) for r in RESHAPES]
+    out += [("other", "restore_original")]
     return out
 
 
 def do_op(ctx, w, kind, d, tag=""):
     if kind == "domain":
         apply_domain(ctx, w, d, tag=tag)
+    elif kind == "other":
+        getattr(w, d)()
     else:
         apply_reshape(ctx, w, d, tag=tag)
 
@@ -57,15 +62,20 @@ class Step(Family):
         out = []
         Ls = (4,) if tier == "quick" else (4, 5, 6)
         for L in Ls:
-            for kind in ("fresh", "fresh-list", "tracked", "reshaped"):
+            for kind in ("fresh", "fresh-list", "tracked", "reshaped", "gridded", "reshaped-other-range"):
                 for (k, d) in all_ops(tier):
-                    if k == "reshape" and d == "recreate:ExpAdaptiveRFA" and (kind == "reshaped" or L > 4):
+                    if k == "reshape" and d == "recreate:ExpAdaptiveRFA" and (kind.startswith("reshaped") or L > 4):
                         continue
                     if kind == "fresh-list" and k == "domain" and d["op"] not in ("append_one_sample", "repeat", "shift_x", "normalize_y"):
                         continue
                     # normalising y locates min/max of three series by comparisons: in the reshaped state that is a
                     # product of orderings with nothing new to see (covered from the fresh and tracked states)
-                    if kind == "reshaped" and k == "domain" and d["op"] == "normalize_y":
+                    if kind.startswith("reshaped") and k == "domain" and d["op"] == "normalize_y":
+                        continue
+                    if kind == "reshaped-other-range" and not (k == "domain" and d["op"] in ("truncate_by_value", "repeat", "shift_x")
+                                                               or k == "reshape" and d in ("integral_match", "interpolate:n", "trend")):
+                        continue
+                    if kind == "gridded" and k == "reshape" and d.startswith("recreate:") and d != "recreate:LinearFixedRFA":
                         continue
                     out.append({"L": L, "kind": kind, "opkind": k, "d": d})
         return out
@@ -78,7 +88,7 @@ class Step(Family):
         do_op(ctx, w, opkind, d)
         well_formed(ctx, w, info)
         caller_untouched(ctx, st, info)
-        if not (opkind == "domain" and d["op"].startswith("normalize")):
+        if not (opkind == "domain" and isinstance(d, dict) and d["op"].startswith("normalize")):
             ctx.claim("original-unchanged", ctx.And(seq_equal(ctx, terms(w.original_x), OX), seq_equal(ctx, terms(w.original_y), OY)), info)
         ox, oy = w.get_original()
         ctx.claim("get_original-well-formed", isinstance(ox, np.ndarray) and isinstance(oy, np.ndarray) and len(ox) == len(oy), info)
